@@ -509,7 +509,7 @@ func TestC09Free(t *testing.T) { refcountFree(t, "C09") }
 func TestC08Free(t *testing.T) { refcountFree(t, "C08") }
 
 func refcountFree(t *testing.T, prop string) {
-	drive(t, prop, "one RefCount (always referenced by an anchor reference, resolver returns fresh value ids) with real parallelism: goroutine 0 replaces the context again and again (each replacement drops the value and resolves afresh), the others AddRef with a recording callback (every 4th nil) and Release some of them; afterwards the final value is awaited; oracle: the resolver is never in two calls at once, no callback is told about a value whose release function has already run, and the last state delivered to every unreleased reference's callback is the final value (a reference added while a value was being replaced must not be left with the replaced value); C08: after the last reference is released every value the resolver produced has had its release function called exactly once; half of the cases run beside a goroutine forcing preemption through runtime.GC; non-trivial iff >= 2 goroutines; distinct by program", 16,
+	drive(t, prop, "one RefCount (always referenced by an anchor reference, resolver returns fresh value ids) with real parallelism: goroutine 0 replaces the context again and again (each replacement drops the value and resolves afresh), the others AddRef with a recording callback (every 4th nil), Release some of them, call released() handles and run Access with a callback that returns at once; afterwards the final value is awaited; oracle: the resolver is never in two calls at once, no callback is told about a value whose release function has already run, and the last state delivered to every unreleased reference's callback is the final value (a reference added while a value was being replaced must not be left with the replaced value); C08: after the last reference is released every value the resolver produced has had its release function called exactly once; half of the cases run beside a goroutine forcing preemption through runtime.GC; non-trivial iff >= 2 goroutines; distinct by program", 16,
 		func(cs Case, v *ev.Verdict) {
 			f := &failer{v: v}
 			var nextVal, inResolver atomic.Int32
@@ -590,6 +590,19 @@ func refcountFree(t *testing.T, prop string) {
 						rc.SetContext(ctx)
 						if op%3 == 0 {
 							runtime.Gosched()
+						}
+						continue
+					}
+					if op%8 == 7 {
+						// an Access consumer beside the context changes: it must come back (the
+						// resolver never fails and the callback returns at once)
+						if err := rc.Access(context.Background(), func(ctx context.Context, val int) error {
+							if op%16 == 7 {
+								runtime.Gosched()
+							}
+							return nil
+						}); err != nil {
+							f.add("C10", "refcount:access-error", "Access with a live context and a callback that returns nil returned %v", err)
 						}
 						continue
 					}
